@@ -45,6 +45,25 @@ if PYDANTIC_V2:
 N_INDENT_SPACES = 4
 
 
+def _component_kwargs(component, name) -> Dict[str, Any]:
+    """Constructor arguments shared by Column and Index components."""
+    return {
+        "dtype": component.dtype,
+        "checks": component.checks,
+        "parsers": component.parsers,
+        "nullable": component.nullable,
+        "unique": component.unique,
+        "report_duplicates": component.report_duplicates,
+        "coerce": component.coerce,
+        "name": name,
+        "title": component.title,
+        "description": component.description,
+        "default": component.default,
+        "metadata": component.metadata,
+        "drop_invalid_rows": component.drop_invalid_rows,
+    }
+
+
 # pylint: disable=too-many-public-methods
 class DataFrameSchema(Generic[TDataObject], BaseSchema):
     def __init__(
@@ -976,14 +995,7 @@ class DataFrameSchema(Generic[TDataObject], BaseSchema):
 
         for col in keys_temp:
             ind_list.append(
-                Index(
-                    dtype=new_schema.columns[col].dtype,
-                    name=col,
-                    checks=new_schema.columns[col].checks,
-                    nullable=new_schema.columns[col].nullable,
-                    unique=new_schema.columns[col].unique,
-                    coerce=new_schema.columns[col].coerce,
-                )
+                Index(**_component_kwargs(new_schema.columns[col], col))
             )
 
         new_schema.index = (
@@ -1159,15 +1171,7 @@ class DataFrameSchema(Generic[TDataObject], BaseSchema):
             )
             new_schema = new_schema.add_columns(
                 {
-                    k: Column(
-                        dtype=v.dtype,
-                        parsers=v.parsers,
-                        checks=v.checks,
-                        nullable=v.nullable,
-                        unique=v.unique,
-                        coerce=v.coerce,
-                        name=v.name,
-                    )
+                    k: Column(**_component_kwargs(v, v.name))
                     for (k, v) in additional_columns.items()
                 }
             )
